@@ -976,7 +976,9 @@ def _gen_package(rnd, n_parts):
     for i in range(n_parts):
         d = rnd.choice(dirs)
         e = rnd.choice(exts)
-        names.append("/" + posixpath.join(d, "p%d.%s" % (i, e)))
+        # file names as users and other producers leave them: sub-delimiters, '@', ':' and blanks are legal in a part name
+        odd = rnd.choice(["", "", "", "@2x", " (1)", "+a,b;c=d", "$x!y*z", "'q'", "~t_-.u", ":c"])
+        names.append("/" + posixpath.join(d, "p%d%s.%s" % (i, odd, e)))
     ctype = {n: rnd.choice(types[n.rsplit(".", 1)[1].lower()]) for n in names}
     payload = {}
     for n in names:
